@@ -2,5 +2,5 @@
 import fa_run
 
 def main(tier):
-    return fa_run.check("C02", tier, new_bits=8, kf_bit=8, kf_requires=4096, beyond_bit=8192, proof_files=["proofs/FaFacts.v", "proofs/C02Proofs.v", "props/C02.v"],
+    return fa_run.check("C02", tier, new_bits=8, kf_bit=8, kf_requires=4096, beyond_bit=8192, proof_files=["proofs/FaFacts.v", "proofs/FaMono.v", "proofs/C02Proofs.v", "proofs/C01Complete.v", "proofs/C02Sound.v", "props/C02.v"],
                         what="a reported name is neither the spelling of an expression of the body (right kind) nor a documented derivation", kf_prefix="KF_C02")
